@@ -594,6 +594,8 @@ def key_to_ascending_key(key: GetItemKeyType, size: int) -> GetItemKeyType:
 
     if key.__class__ is np.ndarray:
         # array first as not truthy
+        if key.dtype == bool: #type: ignore
+            return key # a Boolean selector is positional already
         return np.sort(key, kind=DEFAULT_SORT_KIND)
 
     if not len(key): #type: ignore
